@@ -140,7 +140,7 @@ def main(tier, replay):
     classes = {k[6:]: n for k, n in stats.items() if k.startswith("class:")}
     cov.update(evaluations=stats.get("calls", 0) + stats.get("scenarios", 0),
                distinct_nontrivial=stats.get("distinct", 0),
-               rule="seeded scenarios of direct differential of util/async.RunLoop on random re-entrant / concurrent Append scripts + directed scenarios from corpus/C18 + 23 classes (plain / forward / streamfail / cancel / close / staleepoch / multiconn / rebreak / sendpanic / staleasync / builder / recvpanic / failpanic / twopools / nonbatch / asyncclose / limitbatch / limitstarve / runloop (shared RunLoop, busy callbacks) / idle (idle timer fired through an export hook, recycling) / regen (CloseAddr two or three times during traffic: every generation of the pool replayed as its own core instance) / rcglue (NewInterceptedClient with a scripted resource-group controller: group priorities vs override, failing OnRequestWait / OnResponseWait, background group, RPC interceptors on the context) / collapse (request pairs equal or differing in exactly one component — TxnInfos, Keys, region — overlapping in time through the sync and async entry; ResolveLock through NewReqCollapse(NewInterceptedClient(..)), leader cancelled); MaxConcurrencyRequestLimit in {default,1,2,3,..} incl. whole batches of mixed priorities / cancelled entries built at once through the repo failpoint mockBatchClientSendDelay, second Take rounds): 1..72 concurrent callers, "
+               rule="seeded scenarios of direct differential of util/async.RunLoop on random re-entrant / concurrent Append scripts + directed scenarios from corpus/C18 + 24 classes (plain / forward / streamfail / cancel / close / staleepoch / multiconn / rebreak / sendpanic / staleasync / builder / recvpanic / failpanic / twopools / nonbatch / asyncclose / limitbatch / limitstarve / runloop (shared RunLoop, busy callbacks) / idle (idle timer fired through an export hook, recycling) / mixedexit (mixed sync + no-deadline async entries queued in batchCommandsCh, sync ones ahead, when the send loop exits on Close / CloseAddr / idle timer) / regen (CloseAddr two or three times during traffic: every generation of the pool replayed as its own core instance) / rcglue (NewInterceptedClient with a scripted resource-group controller: group priorities vs override, failing OnRequestWait / OnResponseWait, background group, RPC interceptors on the context) / collapse (request pairs equal or differing in exactly one component — TxnInfos, Keys, region — overlapping in time through the sync and async entry; ResolveLock through NewReqCollapse(NewInterceptedClient(..)), leader cancelled); MaxConcurrencyRequestLimit in {default,1,2,3,..} incl. whole batches of mixed priorities / cancelled entries built at once through the repo failpoint mockBatchClientSendDelay, second Take rounds): 1..72 concurrent callers, "
                     "4 request types, priorities 0..16, 1..5 forwarded hosts, 1..4 connections, concurrency limit, batch policies, server side delay / reorder / "
                     "duplicate / unknown-id / never-answered responses, stream kills, server restarts, injected Send/Recv/stream-creation failures, cancellation, "
                     "time-outs, client / address close during traffic, sync calls with 30 s time-outs and SendRequestAsync calls without deadline (must complete in the drain phase), "
